@@ -20,7 +20,7 @@ use crate::{
     util::f64_same,
 };
 
-const RULE: &str = "sequential lane: a builder configuration (global buckets / one per-metric Full override / none; 0-2 global labels) and a history of 3-40 steps over 1-5 keys (register+update of counters by increment or absolute, gauges by set/increment/decrement, histograms by record; describe; render; run_upkeep) with names needing sanitisation, label values with quotes/newlines/non-ASCII (no backslash), all-u64 and NaN/inf/-0 values; every render is parsed by the strict parser and compared with a reference model. Non-trivial = a histogram sample recorded between two drains (render/upkeep) of its key and rendered later, or a global label overridden by a key label. Schedule lane: 1-3 recording threads and one observer (render/upkeep) interleaved at the bucket and registry hook sites, known C05 window fused; non-trivial = an observer step inside a record(). Stress lane: free-running renders/upkeeps between barrier-separated recording phases. Distinct = distinct decoded (case, schedule).";
+const RULE: &str = "sequential lane: a builder configuration (global buckets / one per-metric Full override / none; 0-2 global labels) and a history of 3-40 steps over 1-5 keys, several of which may be series of one family, (register+update of counters by increment or absolute, gauges by set/increment/decrement, histograms by record; describe; render; run_upkeep) with names needing sanitisation, label values with quotes/newlines/non-ASCII (no backslash), all-u64 and NaN/inf/-0 values; every render is parsed by the strict parser and compared with a reference model. Non-trivial = a histogram sample recorded between two drains (render/upkeep) of its key and rendered later, or a global label overridden by a key label. Schedule lane: 1-3 recording threads and one observer (render/upkeep) interleaved at the bucket and registry hook sites, known C05 window fused; non-trivial = an observer step inside a record(). Stress lane: free-running renders/upkeeps between barrier-separated recording phases. Distinct = distinct decoded (case, schedule).";
 
 static META: Metadata<'static> = Metadata::new("c07", Level::INFO, None);
 
@@ -50,6 +50,7 @@ enum Step {
     GInc(usize, f64),
     GDec(usize, f64),
     Rec(usize, f64),
+    RecMany(usize, f64, usize),
     Describe(usize, String),
     Render,
     Upkeep,
@@ -78,6 +79,7 @@ fn dec_cfg_keys(src: &mut Source) -> (Config, Vec<KeySpec>) {
             let kind = *src.pick(&['h', 'c', 'g', 'h']);
             let name = format!("{}m{}", src.small_string(&NAME_PARTS, 4), i);
             let mut labels: Vec<(String, String)> = vec![];
+            let _ = &name;
             for j in 0..src.below(4) {
                 let k = if !globals.is_empty() && src.chance(70) { globals[src.below(globals.len())].0.clone() } else { format!("{}k{}", src.small_string(&NAME_PARTS, 2), j) };
                 if !labels.iter().any(|(n, _)| *n == k) {
@@ -87,6 +89,18 @@ fn dec_cfg_keys(src: &mut Source) -> (Config, Vec<KeySpec>) {
             KeySpec { kind, name, labels }
         })
         .collect();
+    // several series in one family: a key may take the name (and kind) of an earlier key; a label with a
+    // distinct value keeps the label sets apart
+    let mut keys = keys;
+    for i in 1..keys.len() {
+        if src.chance(90) {
+            let j = src.below(i);
+            keys[i].kind = keys[j].kind;
+            keys[i].name = keys[j].name.clone();
+            keys[i].labels.retain(|(n, _)| n != "sid");
+            keys[i].labels.push(("sid".to_string(), i.to_string()));
+        }
+    }
     let full_override = if buckets.is_none() && src.chance(80) { Some(src.below(nk)) } else { None };
     (Config { buckets, full_override, globals }, keys)
 }
@@ -124,7 +138,13 @@ fn decode(src: &mut Source) -> Case {
                 5 => Step::Describe(k, src.small_string(&LVAL_PARTS, 4)),
                 6 | 7 => Step::Render,
                 8 => Step::Upkeep,
-                _ => Step::Rec(k, dec_value(src)),
+                _ => {
+                    if src.chance(60) {
+                        Step::RecMany(k, src.f64_dyadic(), 60 + src.below(140))
+                    } else {
+                        Step::Rec(k, dec_value(src))
+                    }
+                }
             }
         })
         .collect();
@@ -171,8 +191,8 @@ struct Model {
     desc: Option<String>,
 }
 
-fn buckets_for<'a>(cfg: &'a Config, idx: usize) -> Option<Vec<f64>> {
-    if cfg.full_override == Some(idx) {
+fn buckets_for(cfg: &Config, keys: &[KeySpec], idx: usize) -> Option<Vec<f64>> {
+    if cfg.full_override.map(|o| keys[o].name == keys[idx].name).unwrap_or(false) {
         Some(vec![1.0, 5.0])
     } else {
         cfg.buckets.clone()
@@ -188,8 +208,10 @@ fn exact_sum(samples: &[f64]) -> (f64, bool) {
 fn check_render(cfg: &Config, keys: &[KeySpec], models: &[Model], text: &str) -> Result<Vec<PromFamily>, Fail> {
     let lines = parse_prometheus(text).map_err(|e| Fail::new("exposition-not-well-formed", format!("{} ; output {:?}", e, text)))?;
     let fams = prom_families(&lines).map_err(|e| Fail::new("family-structure-violated", format!("{} ; output {:?}", e, text)))?;
-    let registered = models.iter().filter(|m| m.registered).count();
-    ensure!(fams.len() == registered, "family-count-mismatch", "{} metrics registered, {} families rendered ; output {:?}", registered, fams.len(), text);
+    let registered: std::collections::BTreeSet<&String> = keys.iter().zip(models.iter()).filter(|(_, m)| m.registered).map(|(k, _)| &k.name).collect();
+    let registered = registered.len();
+    ensure!(fams.len() == registered, "family-count-mismatch", "{} distinct metric names registered, {} families rendered ; output {:?}", registered, fams.len(), text);
+    let mut samples_accounted: std::collections::HashMap<String, usize> = Default::default();
     for (i, k) in keys.iter().enumerate() {
         let m = &models[i];
         if !m.registered {
@@ -201,6 +223,12 @@ fn check_render(cfg: &Config, keys: &[KeySpec], models: &[Model], text: &str) ->
         };
         let want_labels = expected_labels(cfg, k);
         let strip = |labels: &[(String, String)], extra: &str| -> BTreeMap<String, String> { labels.iter().filter(|(n, _)| n != extra).cloned().collect() };
+        // this key's series: the samples of the family whose label map (without le / quantile) is the expected one
+        let full = f;
+        let series = PromFamily { name: full.name.clone(), mtype: full.mtype.clone(), help: full.help.clone(), samples: full.samples.iter().filter(|(_, l, _, _)| l.iter().filter(|(n, _)| n != "le" && n != "quantile").cloned().collect::<BTreeMap<String, String>>() == want_labels).cloned().collect() };
+        ensure!(!series.samples.is_empty(), "series-missing", "family {:?} has no series with labels {:?} (global labels overridden by key labels) ; output {:?}", fname, want_labels, text);
+        *samples_accounted.entry(fname.clone()).or_insert(0) += series.samples.len();
+        let f = &series;
         match (&m.desc, &f.help) {
             (Some(d), Some(h)) => ensure!(d == h, "help-not-first-description", "HELP of {:?} is {:?}, first description given was {:?}", fname, h, d),
             (None, None) => {}
@@ -222,7 +250,7 @@ fn check_render(cfg: &Config, keys: &[KeySpec], models: &[Model], text: &str) ->
             _ => {
                 let n = m.samples.len() as u64;
                 let (sum, exact) = exact_sum(&m.samples);
-                let bk = buckets_for(cfg, i);
+                let bk = buckets_for(cfg, keys, i);
                 ensure!(f.mtype == if bk.is_some() { "histogram" } else { "summary" }, "wrong-family-type", "{:?} rendered as {} but buckets apply: {}", fname, f.mtype, bk.is_some());
                 let get = |suffix: &str| f.samples.iter().find(|(sn, _, _, _)| *sn == format!("{}{}", fname, suffix));
                 let Some((_, cl, _, cvt)) = get("_count") else { return Err(Fail::new("wrong-family-shape", format!("{:?} has no _count ; output {:?}", fname, text))) };
@@ -258,6 +286,9 @@ fn check_render(cfg: &Config, keys: &[KeySpec], models: &[Model], text: &str) ->
                 }
             }
         }
+    }
+    for f in &fams {
+        ensure!(samples_accounted.get(&f.name).copied().unwrap_or(0) == f.samples.len(), "unexpected-series", "family {:?} renders {} samples but the registered keys account for {} ; output {:?}", f.name, f.samples.len(), samples_accounted.get(&f.name).copied().unwrap_or(0), text);
     }
     Ok(fams)
 }
@@ -326,6 +357,21 @@ fn case_seq(bytes: &[u8], _s: &[u8], ctx: &mut Ctx) -> Result<(), Fail> {
                 }
                 last_render = None;
             }
+            Step::RecMany(k, v, n) => {
+                if case.keys[*k].kind != 'h' {
+                    continue;
+                }
+                rec.register_histogram(&key_of(&case.keys[*k]), &META).record_many(*v, *n);
+                models[*k].registered = true;
+                for _ in 0..*n {
+                    models[*k].samples.push(*v);
+                }
+                if drains_seen[*k] >= 1 {
+                    drained_since_sample[*k] = 1;
+                }
+                ctx.class("more-than-a-block-of-samples");
+                last_render = None;
+            }
             Step::Describe(k, d) => {
                 let name = case.keys[*k].name.clone();
                 match case.keys[*k].kind {
@@ -333,8 +379,10 @@ fn case_seq(bytes: &[u8], _s: &[u8], ctx: &mut Ctx) -> Result<(), Fail> {
                     'g' => rec.describe_gauge(name.into(), None, d.clone().into()),
                     _ => rec.describe_histogram(name.into(), None, d.clone().into()),
                 }
-                if models[*k].desc.is_none() {
-                    models[*k].desc = Some(d.clone());
+                for (j, other) in case.keys.iter().enumerate() {
+                    if other.name == case.keys[*k].name && models[j].desc.is_none() {
+                        models[j].desc = Some(d.clone());
+                    }
                 }
                 last_render = None;
             }
